@@ -277,10 +277,17 @@ func RandPipe(r *rand.Rand, name string, o PipeOpts) PipeSpec {
 		def.Env = map[string]string{"PIPE_" + name: fmt.Sprint(r.Intn(1000)), "SHARED": "pipe-" + name}
 	}
 	for _, n := range g.Names {
+		k := r.Intn(100000)
 		td := definition.TaskDef{
-			Script:       []string{fmt.Sprintf("echo %s-%d", n, r.Intn(100000))},
+			Script:       []string{fmt.Sprintf("echo %s-%d", n, k)},
 			DependsOn:    append([]string(nil), g.Deps[n]...),
 			AllowFailure: r.Float64() < o.AllowFailureProb,
+		}
+		if k%6 == 0 && len(td.DependsOn) > 0 && !g.Cyclic {
+			// a dependency may be named twice (`depends_on: [build, build]` is accepted by the loader): the graph is the same
+			// (seed C02-n: a sort that counts entries instead of distinct dependencies). Decided by a number that is drawn
+			// anyway, so the random stream of the other choices is unchanged.
+			td.DependsOn = append(td.DependsOn, td.DependsOn[k%len(td.DependsOn)])
 		}
 		if r.Intn(8) == 0 {
 			td.Script = nil // empty-script task
